@@ -76,23 +76,23 @@ func (c *Cfg) Equal(o *Cfg) bool {
 
 // Sample is a copy of a node's internal state (hook H2) or of Status().
 type Sample struct {
-	State       string `json:"st"`
-	Term        uint64 `json:"t"`
-	Vote        string `json:"v,omitempty"`
-	Commit      uint64 `json:"c"`
-	Applied     uint64 `json:"a"`
-	LII         uint64 `json:"li,omitempty"`
-	LIT         uint64 `json:"lt,omitempty"`
-	Cfg         *Cfg   `json:"cf,omitempty"`
-	CCfg        *Cfg   `json:"cc,omitempty"`
-	Leader      string `json:"ld,omitempty"`
-	LeaseValid  bool   `json:"lv,omitempty"`
+	State       string            `json:"st"`
+	Term        uint64            `json:"t"`
+	Vote        string            `json:"v,omitempty"`
+	Commit      uint64            `json:"c"`
+	Applied     uint64            `json:"a"`
+	LII         uint64            `json:"li,omitempty"`
+	LIT         uint64            `json:"lt,omitempty"`
+	Cfg         *Cfg              `json:"cf,omitempty"`
+	CCfg        *Cfg              `json:"cc,omitempty"`
+	Leader      string            `json:"ld,omitempty"`
+	LeaseValid  bool              `json:"lv,omitempty"`
 	Match       map[string]uint64 `json:"m,omitempty"`
 	Next        map[string]uint64 `json:"nx,omitempty"`
-	Floor       uint64 `json:"fl,omitempty"` // largest term observed for the node before the sample was taken
-	LV          uint64 `json:"lv2,omitempty"` // log-shadow version read before the sample was taken
-	CommitFloor uint64 `json:"cfl,omitempty"`
-	ApplFloor   uint64 `json:"afl,omitempty"`
+	Floor       uint64            `json:"fl,omitempty"`  // largest term observed for the node before the sample was taken
+	LV          uint64            `json:"lv2,omitempty"` // log-shadow version read before the sample was taken
+	CommitFloor uint64            `json:"cfl,omitempty"`
+	ApplFloor   uint64            `json:"afl,omitempty"`
 }
 
 // Msg describes one RPC as seen by the network the harness owns.
@@ -136,13 +136,13 @@ type Op struct {
 	Call    uint64 `json:"ca,omitempty"` // seq of the call event
 	Outcome string `json:"o,omitempty"`  // ok, err:<kind>, timeout, unknown
 	// result (ok)
-	Index  uint64 `json:"ix,omitempty"`
-	Term   uint64 `json:"tm,omitempty"`
-	BytesOK bool  `json:"bo,omitempty"`
-	Count  uint64 `json:"n,omitempty"`
-	Chain  uint64 `json:"ch,omitempty"`
-	LastIx uint64 `json:"lx,omitempty"`
-	Cfg    *Cfg   `json:"cf,omitempty"`
+	Index   uint64 `json:"ix,omitempty"`
+	Term    uint64 `json:"tm,omitempty"`
+	BytesOK bool   `json:"bo,omitempty"`
+	Count   uint64 `json:"n,omitempty"`
+	Chain   uint64 `json:"ch,omitempty"`
+	LastIx  uint64 `json:"lx,omitempty"`
+	Cfg     *Cfg   `json:"cf,omitempty"`
 	// membership request
 	Server string `json:"sv,omitempty"`
 	Voter  bool   `json:"vt,omitempty"`
@@ -150,22 +150,22 @@ type Op struct {
 
 // Event is one record in the event log. Fields are interpreted by Kind.
 type Event struct {
-	Seq  uint64 `json:"s"`
-	W    int64  `json:"w,omitempty"` // wall-clock nanoseconds since the monitor was created (measured preconditions only)
-	Kind string `json:"k"`
-	Node string `json:"n,omitempty"`
-	Inc  int    `json:"i,omitempty"`
-	Via  uint64 `json:"via,omitempty"` // message id of the handler invocation that caused this storage event
-	Idx  uint64 `json:"x,omitempty"`
-	Term uint64 `json:"t,omitempty"`
-	Str  string `json:"str,omitempty"`
-	Num  int64  `json:"num,omitempty"`
-	Hash uint64 `json:"h,omitempty"`
-	Flag bool   `json:"fl,omitempty"`
-	Inst int    `json:"in,omitempty"` // FSM instance id / snapshot file id
-	Cnt  uint64 `json:"cnt,omitempty"`
-	Chn  uint64 `json:"chn,omitempty"`
-	Lst  uint64 `json:"lst,omitempty"`
+	Seq  uint64  `json:"s"`
+	W    int64   `json:"w,omitempty"` // wall-clock nanoseconds since the monitor was created (measured preconditions only)
+	Kind string  `json:"k"`
+	Node string  `json:"n,omitempty"`
+	Inc  int     `json:"i,omitempty"`
+	Via  uint64  `json:"via,omitempty"` // message id of the handler invocation that caused this storage event
+	Idx  uint64  `json:"x,omitempty"`
+	Term uint64  `json:"t,omitempty"`
+	Str  string  `json:"str,omitempty"`
+	Num  int64   `json:"num,omitempty"`
+	Hash uint64  `json:"h,omitempty"`
+	Flag bool    `json:"fl,omitempty"`
+	Inst int     `json:"in,omitempty"` // FSM instance id / snapshot file id
+	Cnt  uint64  `json:"cnt,omitempty"`
+	Chn  uint64  `json:"chn,omitempty"`
+	Lst  uint64  `json:"lst,omitempty"`
 	Ents []Entry `json:"e,omitempty"`
 	St   *Sample `json:"sm,omitempty"`
 	Msg  *Msg    `json:"m,omitempty"`
@@ -175,45 +175,45 @@ type Event struct {
 
 // Event kinds.
 const (
-	KLogOpen    = "log.open"    // Idx,Term = base; Ents = entries reloaded
-	KLogAppend  = "log.append"  // Ents; Flag = single-entry AppendEntry; St = locked sample when no-op by leader
-	KLogTrunc   = "log.trunc"   // Idx
-	KLogCompact = "log.compact" // Idx
-	KLogDiscard = "log.discard" // Idx, Term
-	KStateSet   = "state.set"   // Term, Str=vote
-	KStateOpen  = "state.open"  // Term, Str=vote (first State() of an incarnation)
-	KSnapNew    = "snap.new"    // Inst=file id, Idx, Term, Cfg, Via (install) or 0 (local)
-	KSnapWrite  = "snap.write"  // Inst, Num=offset, Cnt=len, Hash
-	KSnapClose  = "snap.close"  // Inst, Num=size, Hash=bytes hash, Cnt/Chn/Lst = decoded content (Flag=decodable)
-	KSnapDiscard = "snap.discard" // Inst
-	KSnapOpen   = "snap.open"   // Idx, Term (label of the file SnapshotFile() returned), Num=size, Hash, Cfg; Flag=false if none
-	KApply      = "fsm.apply"   // Inst, Idx, Term, Hash (bytes), Str=op id, Cnt/Chn = state after
-	KRead       = "fsm.read"    // Inst, Str=op id, Cnt/Chn/Lst = state returned
-	KFsmSnap    = "fsm.snap"    // Inst, Cnt/Chn/Lst state written, Num=bytes
-	KRestore    = "fsm.restore" // Inst, Hash = bytes hash, Num = size, Cnt/Chn/Lst decoded; Flag=from InstallSnapshot/boot
-	KSend       = "msg.send"
-	KDeliver    = "msg.deliver"
-	KReply      = "msg.reply"   // reply produced by the handler (at the receiver)
-	KReplied    = "msg.replied" // reply handed back to the sender
-	KDrop       = "msg.drop"    // Str = req|rep
-	KCall       = "cli.call"
-	KRet        = "cli.ret"
-	KNodeNew    = "node.new"   // Flag = restart over an image
-	KNodeStart  = "node.start" // Str = error if any
-	KNodeCrash  = "node.crash" // Str = crash point
-	KNodeStop   = "node.stop"
-	KNodeBounce = "node.bounce" // in-process Stop + Restart of the same object
-	KSample     = "sample"
-	KFault      = "fault" // Str = description
-	KPhase      = "phase" // Str
-	KFatal      = "fatal" // Str = message
-	KNote       = "note"
-	KBoot       = "boot" // Cfg = bootstrap configuration (static voters)
+	KLogOpen      = "log.open"     // Idx,Term = base; Ents = entries reloaded
+	KLogAppend    = "log.append"   // Ents; Flag = single-entry AppendEntry; St = locked sample when no-op by leader
+	KLogTrunc     = "log.trunc"    // Idx
+	KLogCompact   = "log.compact"  // Idx
+	KLogDiscard   = "log.discard"  // Idx, Term
+	KStateSet     = "state.set"    // Term, Str=vote
+	KStateOpen    = "state.open"   // Term, Str=vote (first State() of an incarnation)
+	KSnapNew      = "snap.new"     // Inst=file id, Idx, Term, Cfg, Via (install) or 0 (local)
+	KSnapWrite    = "snap.write"   // Inst, Num=offset, Cnt=len, Hash
+	KSnapClose    = "snap.close"   // Inst, Num=size, Hash=bytes hash, Cnt/Chn/Lst = decoded content (Flag=decodable)
+	KSnapDiscard  = "snap.discard" // Inst
+	KSnapOpen     = "snap.open"    // Idx, Term (label of the file SnapshotFile() returned), Num=size, Hash, Cfg; Flag=false if none
+	KApply        = "fsm.apply"    // Inst, Idx, Term, Hash (bytes), Str=op id, Cnt/Chn = state after
+	KRead         = "fsm.read"     // Inst, Str=op id, Cnt/Chn/Lst = state returned
+	KFsmSnap      = "fsm.snap"     // Inst, Cnt/Chn/Lst state written, Num=bytes
+	KRestore      = "fsm.restore"  // Inst, Hash = bytes hash, Num = size, Cnt/Chn/Lst decoded; Flag=from InstallSnapshot/boot
+	KSend         = "msg.send"
+	KDeliver      = "msg.deliver"
+	KReply        = "msg.reply"   // reply produced by the handler (at the receiver)
+	KReplied      = "msg.replied" // reply handed back to the sender
+	KDrop         = "msg.drop"    // Str = req|rep
+	KCall         = "cli.call"
+	KRet          = "cli.ret"
+	KNodeNew      = "node.new"   // Flag = restart over an image
+	KNodeStart    = "node.start" // Str = error if any
+	KNodeCrash    = "node.crash" // Str = crash point
+	KNodeStop     = "node.stop"
+	KNodeBounce   = "node.bounce" // in-process Stop + Restart of the same object
+	KSample       = "sample"
+	KFault        = "fault" // Str = description
+	KPhase        = "phase" // Str
+	KFatal        = "fatal" // Str = message
+	KNote         = "note"
+	KBoot         = "boot"          // Cfg = bootstrap configuration (static voters)
 	KLeaseOverlap = "lease.overlap" // Node became leader of Term while Str still reports leader (term Idx) with a valid lease
-	KPuppet      = "puppet"       // puppet mode on
-	KWorldCommit = "world.commit" // Ents declared committed by the scripted world
-	KWorldSnap   = "world.snap"   // a snapshot a scripted sender has (Idx, Term, Num=size, Hash, Cnt, Chn)
-	KProbe       = "probe"        // Str=kind, Flag=expected decision, Msg=request+reply, Idx/Term = true last index/term
+	KPuppet       = "puppet"        // puppet mode on
+	KWorldCommit  = "world.commit"  // Ents declared committed by the scripted world
+	KWorldSnap    = "world.snap"    // a snapshot a scripted sender has (Idx, Term, Num=size, Hash, Cnt, Chn)
+	KProbe        = "probe"         // Str=kind, Flag=expected decision, Msg=request+reply, Idx/Term = true last index/term
 )
 
 func HashBytes(b []byte) uint64 {
